@@ -1286,12 +1286,25 @@ CLAMP_REVIEWED = {
     ("sonify", "pitch_contour"): "synthesis: negative (unvoiced) frequencies are silenced",
 }
 CLAMP_COUNTS = {("sonify", "time_frequency"): 2}
+# the functions whose values have a documented range or meaning that a clamp would falsify; a clamp elsewhere (index
+# arithmetic, a count that cannot be negative anyway) is ordinary code and is not judged
+CLAMP_WATCH = {
+    ("transcription", "average_overlap_ratio"), ("chord", "encode"), ("chord", "encode_many"), ("chord", "weighted_accuracy"),
+    ("chord", "scale_degree_to_semitone"), ("chord", "scale_degree_to_bitmap"), ("chord", "pitch_class_to_semitone"),
+    ("hierarchy", "tmeasure"), ("hierarchy", "lmeasure"), ("multipitch", "resample_multipitch"), ("multipitch", "compute_num_freqs"),
+    ("util", "intervals_to_samples"), ("util", "interpolate_intervals"), ("util", "adjust_intervals"), ("util", "adjust_events"),
+    ("segment", "detection"), ("segment", "deviation"), ("separation", "bss_eval_sources_framewise"), ("separation", "bss_eval_images_framewise"),
+    ("melody", "raw_pitch_accuracy"), ("melody", "raw_chroma_accuracy"), ("melody", "overall_accuracy"), ("melody", "freq_to_voicing"),
+    ("melody", "resample_melody_series"), ("tempo", "detection"), ("io", "load_tempo"), ("beat", "cemgil"), ("beat", "information_gain"),
+    ("onset", "f_measure"), ("key", "weighted_score"), ("alignment", "percentage_correct"), ("alignment", "karaoke_perceptual_metric"),
+} | set(CLAMP_REVIEWED)
 
 
 def rule_noclamp(rule, files, min_sites=0):
-    """Scores, times, indices and window sizes are used as computed: no new `np.clip(..)` / `max(x, <number>)` /
-    `np.minimum(x, <number>)` forces a value into a range.  The five clamps of the published code are reviewed per
-    function; a clamp anywhere else turns a documented out-of-range value (a negative overlap ratio, a time outside the
+    """Scores, times and window sizes are used as computed in the functions whose values have a documented range or
+    meaning (CLAMP_WATCH): no new `np.clip(..)` / `max(x, <number>)` / `np.minimum(x, <number>)` forces a value into a
+    range there.  The clamps of the published code are reviewed per function; a new one turns a documented out-of-range
+    value (a negative overlap ratio, a time outside the
     annotation, a one-frame window, a flattened unison) into a different, valid-looking one."""
 
     def run(ctx):
@@ -1315,6 +1328,8 @@ def rule_noclamp(rule, files, min_sites=0):
                 if not is_clamp:
                     continue
                 fname = owner[node]
+                if (mname, fname) not in CLAMP_WATCH:
+                    continue
                 n += 1
                 per_fn[fname] = per_fn.get(fname, 0) + 1
                 rev = CLAMP_REVIEWED.get((mname, fname))
